@@ -80,8 +80,8 @@ inductive Pc where
   | r73 (n cpos : Nat) | r74 (n cpos : Nat) | r75 (n cpos : Nat) | r76 (n cpos : Nat) | r77 (n cpos : Nat)
   | r77w (n cpos : Nat) | r78 (n cpos : Nat) | r79 (n : Nat)
   -- ReadPeek(n) (w = false, marks 80–89) and ReadWait(n) (w = true, marks 90–99)
-  | p80 (w : Bool) (n : Nat) | p81 (w : Bool) (n cpos : Nat) | p82 (w : Bool) (n cpos ppos : Nat)
-  | p83 (w : Bool) (n cpos ppos : Nat) | p84 (w : Bool) (n cpos : Nat) | p85 (w : Bool) (n cpos : Nat)
+  | p80 (w : Bool) (n : Nat) | p81 (w : Bool) (n cpos : Nat) | p82 (w : Bool) (n cpos : Nat)
+  | p83 (w : Bool) (n cpos : Nat) | p84 (w : Bool) (n cpos : Nat) | p85 (w : Bool) (n cpos : Nat)
   | p86 (w : Bool) (n cpos : Nat) | p86w (w : Bool) (n cpos : Nat) | p87 (w : Bool) (n cpos : Nat)
   | p88 (w : Bool) (n cpos ppos : Nat)
   | p89c (w : Bool) (cpos m : Nat) (err : Err) (j : Nat) (acc : List UInt8)
@@ -111,7 +111,7 @@ def Pc.yid : Pc → Option Nat
   | .r73 _ _ => some 73 | .r74 _ _ => some 74 | .r75 _ _ => some 75 | .r76 _ _ => some 76 | .r77 _ _ => some 77
   | .r77w _ _ => none | .r78 _ _ => some 78 | .r79 _ => some 79
   | .p80 w _ => some (if w then 90 else 80) | .p81 w _ _ => some (if w then 91 else 81)
-  | .p82 w _ _ _ => some (if w then 92 else 82) | .p83 w _ _ _ => some (if w then 93 else 83)
+  | .p82 w _ _ => some (if w then 92 else 82) | .p83 w _ _ => some (if w then 93 else 83)
   | .p84 w _ _ => some (if w then 94 else 84) | .p85 w _ _ => some (if w then 95 else 85)
   | .p86 w _ _ => some (if w then 96 else 86) | .p86w _ _ _ => none
   | .p87 w _ _ => some (if w then 97 else 87) | .p88 w _ _ _ => some (if w then 98 else 88)
@@ -214,6 +214,10 @@ def wfsOk (cfg : Cfg) (th : Th) (ppos n : Nat) : Th :=
   | some (.wcommit _) => th.goto (.c50 n ppos)
   | _ => th.ret { err := .nouse }
 
+/-- entry of `waitForWriteSpace(n)`: the size check, up to mark 30 -/
+def enterWfs (cfg : Cfg) (th : Th) (n : Nat) : Th :=
+  if n > cfg.size then wfsErr th .full else th.goto (.s30 n)
+
 /-- the wait condition of the consumer loops: ReadPeek `cpos >= ppos`, ReadWait `next > ppos` -/
 def mustWait (w : Bool) (n cpos ppos : Nat) : Bool :=
   if w then decide (cpos + n > ppos) else decide (cpos ≥ ppos)
@@ -222,8 +226,8 @@ def mustWait (w : Bool) (n cpos ppos : Nat) : Bool :=
 def startCall (cfg : Cfg) (th : Th) (call : Call) : Th :=
   match call with
   | .write n => { th with slice := none }.goto (.w40 n)
-  | .wwait n => { th with slice := none }.goto (.s30 n)
-  | .wcommit n => { th with slice := none }.goto (.s30 n)
+  | .wwait n => enterWfs cfg { th with slice := none } n
+  | .wcommit n => enterWfs cfg { th with slice := none } n
   | .wfill =>
     match th.slice with
     | some (start, len) => th.goto (.f0 start len 0)
@@ -262,9 +266,9 @@ def tstep (cfg : Cfg) (sh : Sh) (me : Tid) (th0 : Th) : Option (Sh × Th) :=
   | .x11 => (sh.lock .pL me).map (·, th.goto .x12)
   | .x12 => some (sh.bcast .pL, th.goto .x13)
   | .x13 => some (sh.unlock .pL, th.goto .x14)
-  | .x14 => (sh.lock .pL me).map (·, th.goto .x15)            -- †D1: pcond.L, should be ccond.L
+  | .x14 => (sh.lock .cL me).map (·, th.goto .x15)
   | .x15 => some (sh.bcast .cL, th.goto .x16)
-  | .x16 => some (sh.unlock .pL, th.ret {})                    -- †D1
+  | .x16 => some (sh.unlock .cL, th.ret {})
   -- Len
   | .l20 => some (sh, th.goto (.l21 sh.cseq))
   | .l21 cpos =>
@@ -284,7 +288,7 @@ def tstep (cfg : Cfg) (sh : Sh) (me : Tid) (th0 : Th) : Option (Sh × Th) :=
     let cpos := sh.cseq
     if ppos + n > cpos + cfg.size then some (sh, th.goto (.s34 n ppos)) else some (sh, th.goto (.s38 n ppos cpos))
   | .s34 n ppos => if sh.done then some (sh, th.goto (.s35 n ppos)) else some (sh, th.goto (.s36 n ppos))
-  | .s35 _ _ => some (sh, wfsErr th .eof)                       -- †D2: returns with pcond.L held
+  | .s35 _ _ => some (sh.unlock .pL, wfsErr th .eof)
   | .s36 n ppos => some (sh.park .pL, th.goto (.s36w n ppos))
   | .s36w n ppos => (sh.resume .pL me).map (·, th.goto (.s37 n ppos))
   | .s37 n ppos =>
@@ -292,7 +296,7 @@ def tstep (cfg : Cfg) (sh : Sh) (me : Tid) (th0 : Th) : Option (Sh × Th) :=
     if ppos + n > cpos + cfg.size then some (sh, th.goto (.s34 n ppos)) else some (sh, th.goto (.s38 n ppos cpos))
   | .s38 n ppos cpos => some (({ sh with gate := cpos }).unlock .pL, wfsOk cfg th ppos n)
   -- Write
-  | .w40 n => if sh.done then some (sh, th.ret { err := .eof }) else some (sh, th.goto (.s30 n))
+  | .w40 n => if sh.done then some (sh, th.ret { err := .eof }) else some (sh, enterWfs cfg th n)
   | .w41c n ppos j =>
     if j < n then
       some ({ sh with buf := wr sh.buf (cfg.idx (ppos + j)) (cfg.src (ppos + j)) }, th.goto (.w41c n ppos (j + 1)))
@@ -335,7 +339,7 @@ def tstep (cfg : Cfg) (sh : Sh) (me : Tid) (th0 : Th) : Option (Sh × Th) :=
   | .r74 n cpos =>
     if cpos ≥ sh.pseq then some (sh, th.goto (.r75 n cpos)) else some (sh, th.goto (.r79 n))
   | .r75 n cpos => if sh.done then some (sh, th.goto (.r76 n cpos)) else some (sh, th.goto (.r77 n cpos))
-  | .r76 _ _ => some (sh, th.ret { err := .eof })               -- †D2: returns with ccond.L held
+  | .r76 _ _ => some (sh.unlock .cL, th.ret { err := .eof })
   | .r77 n cpos => some (sh.park .cL, th.goto (.r77w n cpos))
   | .r77w n cpos => (sh.resume .cL me).map (·, th.goto (.r78 n cpos))
   | .r78 n cpos =>
@@ -343,12 +347,13 @@ def tstep (cfg : Cfg) (sh : Sh) (me : Tid) (th0 : Th) : Option (Sh × Th) :=
   | .r79 n => some (sh.unlock .cL, th.goto (.r61 n))
   -- ReadPeek / ReadWait
   | .p80 w n => some (sh, th.goto (.p81 w n sh.cseq))
-  | .p81 w n cpos => some (sh, th.goto (.p82 w n cpos sh.pseq))
-  | .p82 w n cpos ppos => (sh.lock .cL me).map (·, th.goto (.p83 w n cpos ppos))
-  | .p83 w n cpos ppos =>                                        -- †D4: tests the cursor loaded before Lock
+  | .p81 w n cpos => some (sh, th.goto (.p82 w n cpos))          -- (the value loaded here is overwritten at p83)
+  | .p82 w n cpos => (sh.lock .cL me).map (·, th.goto (.p83 w n cpos))
+  | .p83 w n cpos =>
+    let ppos := sh.pseq
     if mustWait w n cpos ppos then some (sh, th.goto (.p84 w n cpos)) else some (sh, th.goto (.p88 w n cpos ppos))
   | .p84 w n cpos => if sh.done then some (sh, th.goto (.p85 w n cpos)) else some (sh, th.goto (.p86 w n cpos))
-  | .p85 _ _ _ => some (sh, th.ret { err := .eof })             -- †D2: returns with ccond.L held
+  | .p85 _ _ _ => some (sh.unlock .cL, th.ret { err := .eof })
   | .p86 w n cpos => some (sh.park .cL, th.goto (.p86w w n cpos))
   | .p86w w n cpos => (sh.resume .cL me).map (·, th.goto (.p87 w n cpos))
   | .p87 w n cpos =>
